@@ -4,8 +4,9 @@ Lean model).
 * `live_prepare(history, conn, pid, now_ms)`: does connection `conn` hold a usable prepare for
   `pid` at `now_ms`?  Declarative backward scan over the history of the operations that happened
   before the write: the most recent event that concerns (conn, pid) must be a well-formed prepare
-  by the same connection, not yet used by a write carrying the pid, not followed by the loss of the
-  connection, and its time to live must not have elapsed (the write is still in time when
+  by the same connection, not yet used by a write carrying the pid, not followed by the end of the
+  connection (closed by either side; `idle` = the server's sweep closed every open connection; a later
+  connection from the same peer address is a different connection), and its time to live must not have elapsed (the write is still in time when
   now == prepare time + ttl).
 * `canon(v)`: type-tagged rendering of a JSON-like Python value (True and 1 are different values
   for the differential comparison).
@@ -50,8 +51,10 @@ def live_prepare(history: List[dict], conn: int, pid: Any, now_ms: int) -> bool:
     """`history` = executed ops before the write, each with its execution time in `t` (ms)."""
     for op in reversed(history):
         kind = op["op"]
+        if kind == "idle":
+            return False  # the idle sweep ended every connection that was open (any earlier prepare's too)
         if kind == "lose" and op["conn"] == conn:
-            return False  # prepares die with their connection
+            return False  # prepares die with their connection, whoever ended it
         if kind == "write" and op["conn"] == conn and op.get("pid") is not None and op["pid"] == pid:
             return False  # each prepare is usable once (any earlier one was superseded or is gone)
         if kind == "prepare" and op["conn"] == conn and op.get("pid") is not None and op["pid"] == pid:
